@@ -28,7 +28,8 @@ LEVEL_TEXT = ("Lean 4 theorems, for all domains (min <= max, any sign/size), cou
               "history has the declared length and only points of the box (invariant through the C09 machine, any "
               "epoch size); every space-time row is (t in [tmin,tmax], x in box) and every border row lies on its "
               "facets.  Tied to /repo on every run by exact differential execution; Holds.C08 is evaluated on the "
-              "implementation's own stores and batches.")
+              "implementation's own stores and batches."
+              "  Holds.C08 itself is proved of the model's whole trace (stores and every batch of every get_batch history) for the ODE, stationary, non-stationary and RAR-configured generators (ode_history_holds, statio_history_holds, nonstatio_history_holds, *_rar_history_holds).")
 LEVEL_NOTE = ("Trusted: Lean kernel + {propext, Classical.choice, Quot.sound}; the model's tie to the code is "
               "differential (generated scopes below).  Runtime facts stated as contracts and observed on every case, not "
               "proved: jax.random.uniform honours [minval,maxval]; float arithmetic of the grid (model over exact "
